@@ -16,7 +16,7 @@
    every run by executing the composed model AND two real stacks on the same scenarios (complete traces compared,
    event by event) and judging the implementation traces with the extracted check_C04 below. *)
 From PS Require Import Lib.Base Generated.Consts Model.SdTypes Model.Config Model.Session Model.StackTypes Model.Stack
-  Model.StackIO Model.System Spec.C08Spec Spec.C04Spec Proofs.C07Proofs Proofs.SystemProofs.
+  Model.StackIO Model.System Spec.C08Spec Spec.C04Spec Proofs.C07Proofs Proofs.WorldInv Proofs.SystemProofs.
 
 Theorem C04_crash_is_silent : forall t b nd fuel rv arrived w tr,
   node_step t b nd fuel rv [CCrash] arrived w tr = (None, match w with Some x => out x ++ tr | None => tr end, [], true).
@@ -58,7 +58,15 @@ Definition ex_verdict : option (list N * list N * bool * bool) :=
 Example C04_example : ex_verdict = Some ([], [1], true, true).
 Proof. vm_compute. reflexivity. Qed.
 
+(* both stacks satisfy the ownership invariant (C09/C10/C15: stored entries own live expiry timers, sleeping tasks own their
+   wake-ups, open collectors own their timeouts) in every state of every run of the composition - after any sequence of
+   stop / start / crash / restart and any loss, duplication or reordering *)
+Theorem C04_both_stacks_well_formed_in_every_state : forall sc,
+  fresh_insts (nd_insts (ss_a sc)) -> fresh_insts (nd_insts (ss_b sc)) -> sys_ok (fst (sys_run_scenario sc)).
+Proof. exact sys_reachable_ok. Qed.
+
 Print Assumptions C04_crash_is_silent.
+Print Assumptions C04_both_stacks_well_formed_in_every_state.
 Print Assumptions C04_restart_is_fresh.
 Print Assumptions C04_first_message_after_restart.
 Print Assumptions C04_ids_sent_before_are_positive.
